@@ -306,6 +306,7 @@ def run(tier, seed):
     res = ck.coqc_many([f for _, f in files], timeout=1500)
     proved_now = set()
     thm_files = []
+    asm_info = {}
     for y, f in files:
         ok, out = res[f]
         if not ok:
@@ -336,6 +337,7 @@ def run(tier, seed):
         if good:
             txt.append('Goal True. idtac "@@PA C15_nn_%d_%d". Abort.\nPrint Assumptions C15_nn_%d_%d.' % (y, good[0], y, good[0]))
         thm_files.append((y, 'nn', len(good), ck.write_gen('C15_nn_%d.v' % y, '\n'.join(txt) + '\n')))
+        asm_info[y] = (txt[0], ml, list(good))
         hd = HEAD % {'y': y, 'mayneg': '[]'}
         thm_files.append((y, 'fed', 1, ck.write_gen('C15_fed_%d.v' % y, hd + fed_text(y, True) + '\n')))
         thm_files.append((y, 'nc', 1, ck.write_gen('C15_nc_%d.v' % y, hd + nc_text(y, True) + '\n')))
@@ -354,6 +356,30 @@ def run(tier, seed):
             ck.oblige(name, ok, out[-400:] if not ok else '')
             if not ok:
                 broken.append((y, kind, name))
+    # assembly along the dependency order: one theorem per year over all lines with a local lemma
+    from . import c15asm
+    nn_ok = {y for (y, kind, n, f) in thm_files if kind == 'nn' and res2[f][0]}
+    lfiles = [(y, ck.write_gen('C15_lists_%d.v' % y, c15asm.lists_file(asm_info[y][0], y, asm_info[y][2]))) for y in sorted(nn_ok) if asm_info[y][2]]
+    res3 = ck.coqc_many([f for _, f in lfiles], timeout=900)
+    sfiles = []
+    for y, f in lfiles:
+        ok, out = res3[f]
+        if not ok:
+            ck.oblige('C15_signs_%d' % y, False, out[-300:])
+            continue
+        head, ml, good = asm_info[y]
+        lists = c15asm.parse_lists(out)
+        if set(lists) != set(good):
+            ck.oblige('C15_signs_%d' % y, False, 'could not read the read-lists of %d lemmas' % len(set(good) - set(lists)))
+            continue
+        text, info = c15asm.signs_file(head, y, ml, good, lists)
+        ck.cov.setdefault('assembly', {})[str(y)] = info
+        sfiles.append((y, ck.write_gen('C15_signs_%d.v' % y, text)))
+    res4 = ck.coqc_many([f for _, f in sfiles], timeout=1500)
+    for y, f in sfiles:
+        ok, out = res4[f]
+        ck.harvest_assumptions(out)
+        ck.oblige('C15_signs_%d (all %d lines with a local lemma, in dependency order)' % (y, ck.cov['assembly'][str(y)]['lines_in_theorem']), ok, out[-300:] if not ok else '')
     if os.environ.get('C15_FREEZE'):
         json.dump({'comment': 'money lines whose local sign lemma is proved on the baseline tree; written by C15_FREEZE=1 ./check C15, never at check time',
                    'proved': sorted(proved_now)}, open(fz_path, 'w'), indent=1)
